@@ -576,7 +576,33 @@ def r6_sweep(ctx, repo):
     problems, unknown = [], []
     if len(gens) != 1 or len(evs) != 1 or gens[0][2] or evs[0][2]:
         problems.append("generate() is called at %d site(s) and evaluate() at %d site(s) (expected once each, outside any loop)" % (len(gens), len(evs)))
-    if conditional:
+    # vector by vector: every generated vector becomes an individual of the batch on every path through the loop body
+    for lp_ in [x for x in all_stmts if isinstance(x, ast.For) and isinstance(x.target, ast.Name)]:
+        it_ = T.expand(lp_.iter, at=lp_)
+        if not (isinstance(it_, ast.Call) and (access_path(it_.func) or "").endswith(".generator.generate")):
+            continue
+        v_ = lp_.target.id
+        fake_ = ast.FunctionDef(name="body", args=fn.args, body=lp_.body, decorator_list=[], returns=None, type_comment=None, lineno=lp_.lineno, col_offset=0)
+        for p_ in Enumerator(loop_counts=(0, 1)).function_paths(fake_):
+            if p_.outcome == "raise":
+                continue
+            env_ = PathEnv(fake_, p_.events)
+            n_app = 0
+            for i_, e_ in enumerate(p_.events):
+                if e_.kind != "stmt":
+                    continue
+                for c_ in calls_in(e_.node):
+                    if isinstance(c_.func, ast.Attribute) and c_.func.attr == "append" and c_.args and not (access_path(c_.func.value) or "").endswith(".problem.individuals"):
+                        a_ = env_.expand_at(c_.args[0], i_)
+                        if isinstance(a_, ast.Call) and (access_path(a_.func) or "").startswith("Individual") and a_.args and access_path(a_.args[0]) == v_:
+                            n_app += 1
+            if n_app == 0:
+                gtxt = [text(e_.node)[:70] for e_ in p_.events if e_.kind == "guard" and e_.val]
+                problems.append("a generated vector does not become a design of the batch on the path [%s]%s: the sweep does not evaluate exactly the generator's designs"
+                                % (p_.describe(4), (" (skipped when %s; `in` on individuals is equality of vectors, so a table with a repeated row, or a second sweep of the same table, loses designs)"
+                                                    % gtxt[0]) if gtxt else ""))
+                break
+    if conditional and not problems:
         unknown.append("conditional statements in the sweep (%s)" % type(conditional[0]).__name__)
     built = None
     if not problems:
